@@ -1,6 +1,7 @@
 import Gofasta.Lemmas.Enc
 import Gofasta.Model.Fasta
 import Gofasta.Spec.Fasta
+import Gofasta.Lemmas.FastaLayout
 /-
 C16 — FASTA reading is layout-independent, strict, total and the same in every reader.
 -/
@@ -93,5 +94,140 @@ theorem no_records : rdFinish ({} : RdState) = .error ([], .empty) := by
 example : (readFasta (.encoded false) (stringToBytes ">a x\r\nAC\r\n>b\r\na\r\n\r\nc")).toOption.map
     (fun rs => rs.map (fun r => (r.id, r.seq, r.idx))) = some [([97], [136, 40], 0), ([98], [136, 40], 1)] := by
   decide +kernel
+
+end Gofasta.Props.C16
+
+namespace Gofasta.Props.C16
+open Gofasta Base Model Spec Lemmas
+
+theorem encodeLine_accepted (hard : Bool) : ∀ (l : List Nat), (∀ b ∈ l, enc hard b ≠ 0) →
+    encodeLine hard l = some (l.map (enc hard)) := by
+  intro l
+  induction l with
+  | nil => intro _; rfl
+  | cons b t ih =>
+    intro h
+    have hb := h b (by simp)
+    simp [encodeLine, hb, ih (fun x hx => h x (by simp [hx]))]
+
+/-- LF, CR and '>' are not in the alphabet (decided on the regenerated tables) -/
+theorem control_bytes_rejected : (enc false 10 = 0 ∧ enc false 13 = 0 ∧ enc false 62 = 0) ∧
+    (enc true 10 = 0 ∧ enc true 13 = 0 ∧ enc true 62 = 0) := by decide +kernel
+
+/-- a file of records as laid out on disk, well-formed for an encoded reader: every header has an ID and no
+    line-end bytes; every sequence line is non-empty and over the accepted alphabet; all sequences have the same
+    non-zero length -/
+structure WFFile (hard : Bool) (W : Nat) (recs : List LRec) : Prop where
+  wpos : 0 < W
+  ids : ∀ r ∈ recs, firstField r.desc = some r.id
+  hdr : ∀ r ∈ recs, CleanLine r.desc
+  chunks : ∀ r ∈ recs, ∀ l ∈ r.chunks, l ≠ [] ∧ ∀ b ∈ l, enc hard b ≠ 0
+  width : ∀ r ∈ recs, r.seq.length = W
+
+theorem accepted_not_control (hard : Bool) (b : Nat) (h : enc hard b ≠ 0) : b ≠ 10 ∧ b ≠ 13 ∧ b ≠ 62 := by
+  have hc := control_bytes_rejected
+  refine ⟨?_, ?_, ?_⟩ <;> (intro e; subst e; cases hard <;> simp_all)
+
+theorem wfRec_of_file (hard : Bool) (W : Nat) (recs : List LRec) (hf : WFFile hard W recs) (r : LRec) (hr : r ∈ recs) :
+    WFRec (.encoded hard) (enc hard) W r := by
+  refine ⟨hf.ids r hr, ?_, hf.width r hr⟩
+  intro l hl
+  obtain ⟨hne, hacc⟩ := hf.chunks r hr l hl
+  refine ⟨⟨hne, ?_⟩, ?_⟩
+  · cases l with
+    | nil => exact absurd rfl hne
+    | cons x t =>
+      have := (accepted_not_control hard x (hacc x (by simp))).2.2
+      simp [this]
+  · simp [seqLine, encodeLine_accepted hard l hacc]
+
+theorem lines_clean (hard : Bool) (W : Nat) (recs : List LRec) (hf : WFFile hard W recs) :
+    ∀ l ∈ renderLines recs, CleanLine l ∧ l ≠ [] := by
+  intro l hl
+  simp only [renderLines, List.mem_flatMap, LRec.lines, List.mem_cons] at hl
+  obtain ⟨r, hr, hl⟩ := hl
+  rcases hl with rfl | hl
+  · obtain ⟨h1, h2⟩ := hf.hdr r hr
+    refine ⟨⟨?_, ?_⟩, by simp⟩
+    · intro b hb
+      rcases List.mem_cons.1 hb with rfl | hb
+      · decide
+      · exact h1 b hb
+    · cases hd : r.desc with
+      | nil => simp
+      | cons x t =>
+        rw [hd] at h2
+        simpa [List.getLast?_cons_cons] using h2
+  · obtain ⟨hne, hacc⟩ := hf.chunks r hr l hl
+    refine ⟨⟨fun b hb => (accepted_not_control hard b (hacc b hb)).1, ?_⟩, hne⟩
+    intro hlast
+    have hmem : (13 : Nat) ∈ l := List.mem_of_getLast? hlast
+    exact (accepted_not_control hard 13 (hacc 13 hmem)).2.1 rfl
+
+/-- **C16.layout_independent** — for every non-empty list of records with non-empty accepted sequences of equal
+length, written under ANY layout (any chunking of each sequence into lines, LF or CRLF, with or without a final
+newline), the encoded reader returns exactly those records: ID = the first white-space-delimited token of the
+header, description = the whole header, sequence = the encoded concatenation of its lines, index = position -/
+theorem layout_independent (hard crlf finalEol : Bool) (W : Nat) (r0 : LRec) (rs : List LRec) (hf : WFFile hard W (r0 :: rs)) :
+    readFasta (.encoded hard) (renderText crlf finalEol (renderLines (r0 :: rs))) = .ok (recsFrom (enc hard) (r0 :: rs) 0) := by
+  rw [readFasta_eq_bind, splitLines_render crlf finalEol _ (lines_clean hard W _ hf)]
+  have hw0 : r0.seq.length = W := hf.width r0 (by simp)
+  have h0 := wfRec_of_file hard W _ hf r0 (by simp)
+  have hrs : ∀ r ∈ rs, WFRec (.encoded hard) (enc hard) W r := fun r hr => wfRec_of_file hard W _ hf r (by simp [hr])
+  rw [← hw0] at h0 hrs
+  exact rdLines_file (.encoded hard) (enc hard) r0 rs (by rw [hw0]; exact hf.wpos) h0 hrs
+
+/-- what is returned does not depend on the layout at all: two layouts of the same records read the same -/
+theorem layout_irrelevant (hard c1 f1 c2 f2 : Bool) (W : Nat) (r0 r0' : LRec) (rs rs' : List LRec)
+    (h1 : WFFile hard W (r0 :: rs)) (h2 : WFFile hard W (r0' :: rs'))
+    (hsame : (r0 :: rs).map (fun r => (r.id, r.desc, r.seq)) = (r0' :: rs').map (fun r => (r.id, r.desc, r.seq))) :
+    readFasta (.encoded hard) (renderText c1 f1 (renderLines (r0 :: rs))) =
+      readFasta (.encoded hard) (renderText c2 f2 (renderLines (r0' :: rs'))) := by
+  rw [layout_independent hard c1 f1 W r0 rs h1, layout_independent hard c2 f2 W r0' rs' h2]
+  congr 1
+  have key : ∀ (a b : List LRec) (k : Nat), a.map (fun r => (r.id, r.desc, r.seq)) = b.map (fun r => (r.id, r.desc, r.seq)) →
+      recsFrom (enc hard) a k = recsFrom (enc hard) b k := by
+    intro a
+    induction a with
+    | nil => intro b k h; cases b <;> simp_all [recsFrom]
+    | cons x xs ih =>
+      intro b k h
+      cases b with
+      | nil => simp at h
+      | cons y ys =>
+        simp only [List.map_cons, List.cons.injEq, Prod.mk.injEq] at h
+        obtain ⟨⟨h1, h2, h3⟩, h4⟩ := h
+        simp only [recsFrom, recOf, h1, h2, h3]
+        rw [ih ys (k + 1) h4]
+  exact key _ _ 0 hsame
+
+/-- non-vacuity: two records, the second wrapped at width 1 and 2, CRLF, no final newline -/
+def exFile : List LRec :=
+  [⟨[97], [97, 32, 120], [[65, 67, 71]]⟩, ⟨[98], [98], [[97], [78, 45]]⟩]
+
+theorem exFile_wf : WFFile false 3 exFile := by
+  refine ⟨by decide, ?_, ?_, ?_, ?_⟩
+  · intro r hr
+    simp only [exFile, List.mem_cons, List.mem_nil_iff, or_false] at hr
+    rcases hr with rfl | rfl <;> decide
+  · intro r hr
+    simp only [exFile, List.mem_cons, List.mem_nil_iff, or_false] at hr
+    rcases hr with rfl | rfl <;> (unfold CleanLine; decide)
+  · intro r hr
+    simp only [exFile, List.mem_cons, List.mem_nil_iff, or_false] at hr
+    rcases hr with rfl | rfl
+    · intro l hl
+      simp only [List.mem_cons, List.mem_nil_iff, or_false] at hl
+      subst hl
+      exact ⟨by decide, by decide +kernel⟩
+    · intro l hl
+      simp only [List.mem_cons, List.mem_nil_iff, or_false] at hl
+      rcases hl with rfl | rfl <;> exact ⟨by decide, by decide +kernel⟩
+  · intro r hr
+    simp only [exFile, List.mem_cons, List.mem_nil_iff, or_false] at hr
+    rcases hr with rfl | rfl <;> decide
+
+example : readFasta (.encoded false) (renderText true false (renderLines exFile)) = .ok (recsFrom (enc false) exFile 0) :=
+  layout_independent false true false 3 _ _ exFile_wf
 
 end Gofasta.Props.C16
